@@ -1,4 +1,5 @@
 //@ unit k_add : digit-slice addition kernels (src/biguint/addition.rs)
+#![feature(allocator_api)]
 use vstd::prelude::*;
 use vstd::std_specs::iter::IteratorSpec;
 verus! {
